@@ -7,7 +7,7 @@
    (ObjectAlignmenter::Check), fewer than 2^32 columns in one call. *)
 From Coq Require Import ZArith List.
 From MomoCommon Require Import GenPrelude.
-From C18 Require Gen_Vertices Gen_Ceil Model Layout Fill Vertices Inv Main.
+From C18 Require Gen_Vertices Gen_Ceil Model Layout Fill Vertices Inv Main RawLife.
 Import ListNotations.
 Local Open Scope Z_scope.
 
@@ -145,6 +145,27 @@ Theorem C18_refused_add_unchanged :
   forall L st cs, (forall st', Model.add L st cs <> Model.Added st') -> Model.after st (Model.add L st cs) = st.
 Proof. exact Inv.refused_unchanged. Qed.
 Print Assumptions C18_refused_add_unchanged.
+
+(* L2, rows: pvCreateRaw / pvCreate<Item, Items...> (CreateRaw and ImportRaw) for any grouping of the columns into
+   FuncRecords and any construction that throws (k = which one): either it completes having constructed every
+   column's item exactly once, in order, destroying nothing; or it throws and every item it constructed has been
+   destroyed again exactly as often as it was constructed (at most once per occurrence of the column) *)
+Theorem C18_raw_create_once :
+  forall groups k t ok, RawLife.create_raw k [] groups = (t, ok) ->
+    if ok then t = map RawLife.Ctor (concat groups)
+    else forall c, RawLife.count (RawLife.Ctor c) t = RawLife.count (RawLife.Dtor c) t /\
+                   (RawLife.count (RawLife.Ctor c) t <= count_occ Nat.eq_dec (concat groups) c)%nat.
+Proof. exact RawLife.raw_create_once. Qed.
+Print Assumptions C18_raw_create_once.
+
+(* a row that is created (nothing throws) and later destroyed with DestroyRaw: each column's item is constructed
+   exactly once and destroyed exactly once *)
+Theorem C18_raw_create_destroy_once :
+  forall groups c, NoDup (concat groups) -> In c (concat groups) ->
+    let t := fst (RawLife.create_raw None [] groups) ++ RawLife.destroy_raw groups in
+    RawLife.count (RawLife.Ctor c) t = 1%nat /\ RawLife.count (RawLife.Dtor c) t = 1%nat.
+Proof. exact RawLife.raw_create_destroy_once. Qed.
+Print Assumptions C18_raw_create_destroy_once.
 
 (* non-vacuity: a history whose third Add needs the second code parameter, a refused duplicate, "Too many columns" *)
 Theorem C18_example_retry :
